@@ -188,7 +188,7 @@ def run_case(case):
 
 def run(ctx: Ctx):
     ctx.rule = (
-        'rows (TLC-enumerated, 1 165): 8 airport pairs over 7 time zones (incl. Phoenix without DST, London, Paris) x 3 local departure x 3 arrival times x arrival '
+        'rows (TLC-enumerated, 1 165): 9 airport pairs over 7 time zones (incl. Phoenix without DST, London, Paris; one pair of airports whose cities share a name but not a zone) x 3 local departure x 3 arrival times x arrival '
         'day offsets -1..2 over a range spanning both spring DST switches; 4 short ranges x all 128 weekday sets and 3 open-ended ranges x 5 weekday sets; '
         '6 stated-distance ratios x 7 skip reasons x 8 pairs; non-trivial = range spans a DST switch, open-ended, or row must be skipped'
     )
